@@ -107,6 +107,10 @@ TREE_FILES = {
     _D1 + '/~x.conf': 'kc d1-tilde\n',
     _D1 + '/~/t.conf': 'kc d1-tildedir\n',
     'shared+&;.conf': 'kc root-shared\n',
+    # references written with percent escapes (the only way to name a file with a blank in 'extends')
+    _D1 + '/pct.conf': 'kc d1-pct\n%include sub%20s/inc%20[3].conf\n%include ../shared%2B&;.conf\n',
+    _D1 + '/pct.xml': '<schema extends="base~+&amp;;x.xml sub%20s/b%20x.xml"><import src="sub%20s/t%20[2].xml"/><multikey name="kc"/></schema>',
+    _D1 + '/sub s/b x.xml': '<schema><key name="kblank"/></schema>',
     # a second directory in which the SAME relative strings name different files
     _D2 + '/schema.xml': '<schema><multikey name="kc"/><key name="k2"/></schema>',
     _D2 + '/main.conf': 'kc d2-main\n%include sub s/inc [3].conf\n',
@@ -135,6 +139,11 @@ TREE_CASES = [
                            ('filerel', _D2, _D2 + '/schema.xml', 'schema.xml'), ('filerel', _D2, _D2 + '/main.conf', 'main.conf'),
                            ('rel', _D1, _D1 + '/schema.xml', 'schema.xml'), ('rel', _D1, _D1 + '/main.conf', 'main.conf')],
      [_K1, _M1, ['k2', 'kc'], _M2, _K1, _M1, ['k2', 'kc'], _M2, _K1, _M1]),
+    ('percent-escaped', [('abs', '.', _D1 + '/pct.xml'), ('abs', '.', _D1 + '/pct.conf'), ('rel', _D2, _D1 + '/pct.conf'),
+                         ('url', '.', _D1 + '/pct.conf'), ('filerel', _D1, _D1 + '/pct.conf'),
+                         ('url', _D2, _D1 + '/pct.xml'), ('filerel', _D1 + '/sub s', _D1 + '/pct.xml')],
+     [['kbase', 'kblank', 'kc'], ['d1-pct', 'd1-inc', 'd1-tilde', 'root-shared']] + [['d1-pct', 'd1-inc', 'd1-tilde', 'root-shared']] * 3
+     + [['kbase', 'kblank', 'kc']] * 2),
     # a relative path whose first component is '~'
     ('tilde-dir', [('abs', '.', _D2 + '/schema.xml'), ('rel', _D1, _D1 + '/~/t.conf', '~/t.conf'),
                    ('rel', _D2, _D2 + '/~/t.conf', '~/t.conf'), ('filerel', _D1, _D1 + '/~/t.conf', '~/t.conf'),
@@ -159,7 +168,7 @@ class C18(Harness):
     assumptions = (
         'REDUCED SCOPE: the agreement of path / relative path / file: URL / open-file entry points on real '
         'directory layouts, working directories and file names is NOT decided by the solver (C-level os '
-        'and urllib I/O cannot take symbolic values); a CONCRETE supplement runs 4 scenario sequences on one '
+        'and urllib I/O cannot take symbolic values); a CONCRETE supplement runs 5 scenario sequences on one '
         'real temp tree (names with space [ ] ~ + & ; and a non-ASCII letter, 3 working directories, the same '
         'relative string re-used after chdir) - enumeration, not a bounded-exhaustive claim',
         'strings ending in "#" are excluded from normalizeURL (empty fragment: urlunparse re-assembly)',
